@@ -463,10 +463,7 @@ func failKey(p Prog, sem bool) (key string, q Prog, v verdict) {
 	}
 	if cpp != nil {
 		i32 := Ty{Name: "i32"}
-		t := Ty{Name: cpp.Name, V: &i32, Cpp: &Lit{`"`, "a"}}
-		if cpp.K != nil {
-			t.K = &i32
-		}
+		t := Ty{Name: "list", V: &i32, Cpp: &Lit{`"`, "a"}}
 		c := Prog{Defs: []Def{{Kind: "typedef", Name: "a", Ty: t}}}
 		if cv := checkSrc(c.Render(), sem); cv.Class != "" && cv.Class != "gen-reject" {
 			return "idl:" + strings.TrimSpace(c.Render()), c, cv
@@ -978,7 +975,8 @@ func (r *runner) trimmerProject(trimmer, dir string, idx int) error {
 	g := r.g
 	// leaf files: only structs/enums/typedefs/consts; main: uses them through services
 	files := map[string]string{}
-	mkLeaf := func(prefix string) (string, []string, []string) {
+	progs := map[string]Prog{}
+	mkLeaf := func(prefix string) (Prog, []string, []string) {
 		p := g.program(true)
 		var keep []Def
 		var structs, excs []string
@@ -995,12 +993,13 @@ func (r *runner) trimmerProject(trimmer, dir string, idx int) error {
 			}
 		}
 		p.Defs = keep
-		return p.Render(), structs, excs
+		return p, structs, excs
 	}
-	bSrc, bStructs, bExcs := mkLeaf("b")
-	cSrc, cStructs, _ := mkLeaf("c")
-	files["b.thrift"] = bSrc
-	files["sub/c.thrift"] = cSrc
+	bProg, bStructs, bExcs := mkLeaf("b")
+	cProg, cStructs, _ := mkLeaf("c")
+	progs["b.thrift"], progs["sub/c.thrift"] = bProg, cProg
+	files["b.thrift"] = bProg.Render()
+	files["sub/c.thrift"] = cProg.Render()
 	mp := g.program(true)
 	mp.Incs = []Lit{{`"`, "b.thrift"}, {"'", "sub/c.thrift"}}
 	ext := append(append([]string{}, bStructs...), cStructs...)
@@ -1021,6 +1020,7 @@ func (r *runner) trimmerProject(trimmer, dir string, idx int) error {
 		svc.Funcs = append(svc.Funcs, f)
 	}
 	mp.Defs = append(mp.Defs, svc)
+	progs["main.thrift"] = mp
 	files["main.thrift"] = mp.Render()
 	for n, s := range files {
 		if err := os.WriteFile(filepath.Join(src, n), []byte(s), 0o644); err != nil {
@@ -1057,6 +1057,13 @@ func (r *runner) trimmerProject(trimmer, dir string, idx int) error {
 	var walk func(a *parser.Thrift)
 	fail := func(rel, class, detail, written string) {
 		r.out.Count("oracle-fail:trimmer/" + class)
+		// the same file in-process: if the library round trip fails on it too, report that (shrunk, canonical key)
+		if p, ok := progs[rel]; ok {
+			if v := checkSrc(files[rel], false); v.Class != "" && v.Class != "gen-reject" {
+				r.report(p, v, false)
+				return
+			}
+		}
 		if r.out.Stats["trimmer-reported:"+class] >= 3 {
 			return
 		}
